@@ -9,7 +9,7 @@ import z3
 from fractions import Fraction
 
 from .values import *          # noqa
-from .engine import (Builtin, Namespace, NDArr, SList, SSeq, SSet, SDict, SObj, AStr, SArr,
+from .engine import (nd_to_obj, nd_from_obj, Builtin, Namespace, NDArr, SList, SSeq, SSet, SDict, SObj, AStr, SArr,
                      SArrRow, OptObj, PyRaise, EngineError, ClassRef, FuncRef, BoundMethod,
                      Closure, SuperProxy, ExcValue, flat, mapnd)
 
@@ -295,12 +295,40 @@ def np_norm(eng, args, kw):
 
 def np_sum(eng, args, kw):
     x = args[0]
-    if isinstance(x, NDArr) and not kw:
+    if isinstance(x, NDArr) and not kw and len(args) == 1:
         s = 0
         for v in flat(x.data):
             s = eng.binop(ast.Add(), s, v)
         return s
+    axis = kw.get('axis', args[1] if len(args) > 1 else None)
+    if isinstance(x, NDArr) and set(kw) <= {'axis'} and axis is not None:
+        import numpy as _np
+        o = nd_to_obj(eng, x)
+        axes = (axis,) if isinstance(axis, int) else tuple(axis)
+        if not all(isinstance(a, int) for a in axes):
+            raise EngineError('np.sum over a symbolic axis')
+        axes = tuple(a % o.ndim for a in axes)
+        keep = [k for k in range(o.ndim) if k not in axes]
+        t = _np.transpose(o, keep + list(axes))
+        ksh = tuple(o.shape[k] for k in keep)
+        out = _np.empty(ksh, dtype=object)
+        for ix in _np.ndindex(*ksh):
+            acc = 0
+            sub = t[ix]
+            for v in (sub.flat if isinstance(sub, _np.ndarray) else [sub]):
+                acc = eng.binop(ast.Add(), acc, v)
+            out[ix] = acc
+        return nd_from_obj(out)
     raise EngineError('np.sum form not modelled')
+
+
+def np_repeat(eng, args, kw):
+    x, n = args[0], args[1]
+    axis = kw.get('axis', args[2] if len(args) > 2 else None)
+    if not isinstance(x, NDArr) or not isinstance(n, int) or not isinstance(axis, int):
+        raise EngineError('np.repeat form')
+    import numpy as _np
+    return nd_from_obj(_np.repeat(nd_to_obj(eng, x), n, axis=axis))
 
 
 def np_argmax(eng, args, kw):
@@ -361,10 +389,10 @@ def np_prod(eng, args, kw):
 def np_tile(eng, args, kw):
     a, reps = args
     reps = _shape_arg(reps)
-    if not isinstance(a, NDArr) or len(a.shape) != 1 or reps is None or len(reps) != 2 or reps[1] != 1 \
-            or not isinstance(reps[0], int):
+    if not isinstance(a, NDArr) or reps is None or not all(isinstance(r, int) for r in reps):
         raise EngineError('np.tile form')
-    return NDArr([list(a.data) for _ in range(reps[0])])
+    import numpy as _np
+    return nd_from_obj(_np.tile(nd_to_obj(eng, a), reps))
 
 
 def np_reshape(eng, args, kw):
@@ -415,6 +443,17 @@ def np_isclose(eng, args, kw):
     cx = isinstance(a, CX) or isinstance(b, CX)
     d = np_abs(eng, [c_sub(a, b) if cx else r_sub(a, b)], {})
     return r_cmp('<=', d, r_add(atol, r_mul(rtol, np_abs(eng, [b], {}))))
+
+
+def np_meshgrid(eng, args, kw):
+    if len(args) != 2 or kw:
+        raise EngineError('np.meshgrid form')
+    x, y = (a if isinstance(a, NDArr) else NDArr(to_nd(eng, a)) for a in args)
+    if len(x.shape) != 1 or len(y.shape) != 1:
+        raise EngineError('np.meshgrid of non-vectors')
+    AXIOMS_USED.add('np.meshgrid(x, y) (default indexing xy): X[i][j] = x[j], Y[i][j] = y[i], shape (len y, len x)')
+    return (NDArr([[x.data[j] for j in range(len(x.data))] for i in range(len(y.data))]),
+            NDArr([[y.data[i] for j in range(len(x.data))] for i in range(len(y.data))]))
 
 
 def np_hypot(eng, args, kw):
@@ -485,6 +524,8 @@ NP = Namespace('np', {
     'arange': Builtin('np.arange', np_arange), 'dot': Builtin('np.dot', np_dot),
     'logical_not': Builtin('np.logical_not', np_logical_not),
     'hypot': Builtin('np.hypot', np_hypot),
+    'meshgrid': Builtin('np.meshgrid', np_meshgrid),
+    'repeat': Builtin('np.repeat', np_repeat),
     'logical_and': Builtin('np.logical_and', np_logical_and),
     'logical_or': Builtin('np.logical_or', np_logical_or),
     'isclose': Builtin('np.isclose', np_isclose),
@@ -1290,25 +1331,41 @@ def nd_getitem(eng, arr, idx):
                 return r
             return NDArr(mapnd(sel, idx.data))
         raise EngineError('fancy indexing of a small array')
-    if isinstance(idx, tuple):
-        cur = arr
-        # support [..., k] and [:, k, :] on small arrays
-        if idx and idx[0] is Ellipsis:
-            if len(idx) == 2:
-                k = idx[1]
-                return NDArr(_take_last(eng, d, k)) if isinstance(_take_last(eng, d, k), list) \
-                    else _take_last(eng, d, k)
-            raise EngineError('ellipsis index form')
-        res = _multi_index(eng, d, list(idx))
-        return NDArr(res) if isinstance(res, list) else res
-    if isinstance(idx, slice):
-        return NDArr(d[idx])
     if isinstance(idx, SV) and idx.kind == 'bool':
         idx = ite(idx, 1, 0)
     if isinstance(idx, bool):
         idx = int(idx)
-    r = d[norm_index(eng, idx, len(d))]
-    return NDArr(r) if isinstance(r, list) else r
+    o = nd_to_obj(eng, arr)
+    r = o[_basic_index(eng, o.shape, idx)]
+    import numpy as _np
+    return nd_from_obj(r) if isinstance(r, _np.ndarray) else r
+
+
+def _basic_index(eng, shape, idx):
+    """numpy basic index (ints, slices, Ellipsis, None) with symbolic ints made concrete by forking"""
+    tup = idx if isinstance(idx, tuple) else (idx,)
+    n_real = sum(1 for i in tup if i is not None and i is not Ellipsis)
+    out = []
+    axis = 0
+    for i in tup:
+        if i is Ellipsis:
+            axis += len(shape) - n_real
+            out.append(i)
+        elif i is None:
+            out.append(None)
+        elif isinstance(i, slice):
+            if not all(x is None or isinstance(x, int) for x in (i.start, i.stop, i.step)):
+                raise EngineError('symbolic slice bound on a small array')
+            out.append(i)
+            axis += 1
+        else:
+            if axis >= len(shape):
+                raise PyRaise('IndexError', ('too many indices',))
+            if isinstance(i, SV) and i.kind == 'bool':
+                i = ite(i, 1, 0)
+            out.append(norm_index(eng, i, shape[axis]))
+            axis += 1
+    return tuple(out)
 
 
 def _take_last(eng, d, k):
@@ -1336,36 +1393,45 @@ def setitem(eng, base, idx, v):
         eng.note_write(('list', base))
         return
     if isinstance(base, NDArr):
-        if isinstance(idx, slice):
-            lo, hi, st = idx.indices(len(base.data))
-            vals = to_nd(eng, v)
-            pos = list(range(lo, hi, st))
-            if not isinstance(vals, list):
-                vals = [vals] * len(pos)
-            if len(vals) != len(pos):
-                raise PyRaise('ValueError', ('could not broadcast input array',))
-            for k, x in zip(pos, vals):
-                base.data[k] = x
-            eng.note_write(('nd', base))
-            return
-        if isinstance(idx, tuple):
-            if idx and idx[0] is Ellipsis and len(idx) == 2:
-                _set_last(eng, base.data, idx[1], v)
-                return
-            raise EngineError('ndarray tuple store')
+        import numpy as _np
         if isinstance(idx, NDArr):
-            # boolean-mask store (elementwise, any concrete shape)
-            if idx.shape != base.shape or (isinstance(v, NDArr) and v.shape != base.shape):
+            # boolean-mask store; a mask with fewer axes selects whole sub-arrays (rows)
+            msh, bsh = idx.shape, base.shape
+            if msh != bsh[:len(msh)]:
                 raise EngineError('mask store with mismatching shapes')
-
-            def rec(b, m, val):
-                if isinstance(b, list) and b and isinstance(b[0], list):
-                    return [rec(b[k], m[k], val[k] if isinstance(val, list) else val) for k in range(len(b))]
-                return [ite(m[k], val[k] if isinstance(val, list) else val, b[k]) for k in range(len(b))]
-            base.data = rec(base.data, idx.data, v.data if isinstance(v, NDArr) else v)
+            o = nd_to_obj(eng, base)
+            mo = nd_to_obj(eng, idx)
+            vo = nd_to_obj(eng, v)
+            if getattr(v, 'masked_by', None) is not None or (isinstance(v, NDArr) and v.shape == bsh):
+                if vo.shape != bsh:
+                    raise EngineError('mask store of a selection with mismatching shape')
+            else:
+                try:
+                    vo = _np.broadcast_to(vo, bsh[len(msh):])
+                except ValueError:
+                    raise PyRaise('ValueError', ('could not broadcast input array',))
+                vo = _np.broadcast_to(vo, bsh)
+            for ix in _np.ndindex(*bsh):
+                o[ix] = ite(mo[ix[:len(msh)]], vo[ix], o[ix])
+            base.data = nd_from_obj(o).data
             eng.note_write(('nd', base))
             return
-        base.data[norm_index(eng, idx, len(base.data))] = v.data if isinstance(v, NDArr) else v
+        o = nd_to_obj(eng, base)
+        bi = _basic_index(eng, o.shape, idx)
+        vo = nd_to_obj(eng, v)
+        try:
+            tgt = o[bi]
+            if isinstance(tgt, _np.ndarray):
+                o[bi] = _np.broadcast_to(vo, tgt.shape)
+            else:
+                if vo.ndim != 0:
+                    if vo.size != 1:
+                        raise PyRaise('ValueError', ('setting an array element with a sequence',))
+                    vo = vo.reshape(())
+                o[bi] = vo[()]
+        except ValueError:
+            raise PyRaise('ValueError', ('could not broadcast input array',))
+        base.data = nd_from_obj(o).data
         eng.note_write(('nd', base))
         return
     if isinstance(base, SArr):
